@@ -109,7 +109,12 @@ func main() {
 	expectFile := flag.String("expect", "", "C19: JSON array of fresh-process outcomes, one per corpus item")
 	cold := flag.Bool("cold", false, "C06: cold start - nothing is parsed before the tasks start; one run per process")
 	gstats := flag.Int("genstats", 0, "debug: measure the hit rate of the path generator")
+	mstats := flag.Int("modelstats", 0, "debug: compare the reference model with the library")
 	flag.Parse()
+	if *mstats > 0 {
+		modelStats(*mstats)
+		return
+	}
 	if *gstats > 0 {
 		genStats(*gstats)
 		return
